@@ -222,9 +222,6 @@ def inject(m: Dict[str, Any], rule: str, variant: str, position: str, rng: rando
             dup['note'] = 'duplicate'
         else:
             dup['columns'] = [copy.deepcopy(c) for c in orig['columns']]
-            for c in dup['columns']:
-                if isinstance(c['type'], dict):
-                    pass
         _at(tables, dup, position, rng)
 
     elif rule == 'dup-alias:alias':
